@@ -4,6 +4,7 @@ import FeatModel.Lemmas.C04SparseExt
 import FeatModel.Lemmas.C04Blocked
 import FeatModel.Lemmas.C04Round
 import FeatModel.Lemmas.C04Flat
+import FeatModel.Lemmas.C04Fl
 /-! # C04 — vector operations equal their element-wise definitions for every vector kind
 
 All statements are about the functions of `FeatModel/Model/VecOps.lean` that `drv_c04` executes against the
@@ -144,33 +145,31 @@ theorem C04.sumSq_elementwise {α : Type} [Semiring α] (x : List α) : sumSq x 
 /-! ## a blocked or composed vector behaves like the plain vector holding the same scalars -/
 
 theorem C04.axpy_flatten {α : Type} [CommRing α] (al : Bool) (a : α) (r x : MVec α) (h : sameShape r x = true) :
-    (MVec.axpy al a r x).flatten = axpyK al a r.flatten x.flatten :=
-  flatten_map2 _ (axpyK_append al a) r x h
+    (MVec.axpy al a r x).flatten = axpyK al a r.flatten x.flatten := by
+  rw [axpy_eq_map2]; exact flatten_map2 _ (axpyK_append al a) r x h
 
 theorem C04.scale_flatten {α : Type} [CommRing α] (al : Bool) (s : α) (r x : MVec α) (h : sameShape r x = true) :
-    (MVec.scale al s r x).flatten = scaleK al s r.flatten x.flatten :=
-  flatten_map2 _ (scaleK_append al s) r x h
+    (MVec.scale al s r x).flatten = scaleK al s r.flatten x.flatten := by
+  rw [scale_eq_map2]; exact flatten_map2 _ (scaleK_append al s) r x h
 
 theorem C04.component_invert_flatten {α : Type} [Field α] (al : Bool) (s : α) (r x : MVec α)
     (h : sameShape r x = true) :
-    (MVec.componentInvert al s r x).flatten = cinvK al s r.flatten x.flatten :=
-  flatten_map2 _ (cinvK_append al s) r x h
+    (MVec.componentInvert al s r x).flatten = cinvK al s r.flatten x.flatten := by
+  rw [componentInvert_eq_map2]; exact flatten_map2 _ (cinvK_append al s) r x h
 
 theorem C04.component_product_flatten {α : Type} [CommRing α] (rx ry : Bool) (r x y : MVec α)
     (h : sameShape r x = true) (h' : sameShape r y = true) :
-    (MVec.componentProduct rx ry r x y).flatten = cprodK rx ry r.flatten x.flatten y.flatten :=
-  flatten_map3 _ (cprodK_append rx ry) r x y h h'
+    (MVec.componentProduct rx ry r x y).flatten = cprodK rx ry r.flatten x.flatten y.flatten := by
+  rw [componentProduct_eq_map3]; exact flatten_map3 _ (cprodK_append rx ry) r x y h h'
 
 /-- `copy`: afterwards the target holds the scalars of the source (aliased or not) -/
 theorem C04.copy_flatten {α : Type} [CommRing α] (al : Bool) (r x : MVec α) (h : sameShape r x = true)
     (hal : al = true → x = r) :
     (MVec.copy al r x).flatten = x.flatten := by
-  unfold MVec.copy
   cases al with
-  | true => simp [hal rfl]
+  | true => rw [copy_true_eq, hal rfl]
   | false =>
-    simp only [Bool.false_eq_true, if_false]
-    rw [flatten_map2 _ copyK_append r x h]
+    rw [copy_false_eq_map2, flatten_map2 _ copyK_append r x h]
     have hl := sameShape_length r x h
     generalize r.flatten = a at hl
     generalize x.flatten = b at hl
@@ -185,21 +184,20 @@ theorem C04.copy_flatten {α : Type} [CommRing α] (al : Bool) (r x : MVec α) (
 /-- `format`: every scalar of the flattened vector is the given value, the size is unchanged -/
 theorem C04.format_flatten {α : Type} [CommRing α] (v : α) (r : MVec α) :
     (MVec.format v r).flatten = List.replicate r.flatten.length v := by
-  unfold MVec.format
-  rw [flatten_map1 _ (by intro a b; simp)]
+  rw [format_eq_map1, flatten_map1 _ (by intro a b; simp)]
   generalize r.flatten = l
   induction l with
   | nil => rfl
   | cons a t ih => simp only [List.map_cons, List.length_cons, List.replicate_succ]; rw [ih]
 
 theorem C04.dot_flatten {α : Type} [CommRing α] (al : Bool) (x y : MVec α) (h : sameShape x y = true) :
-    MVec.dot al x y = dotK al x.flatten y.flatten :=
-  red2_flatten _ (dotK_append al) x y h
+    MVec.dot al x y = dotK al x.flatten y.flatten := by
+  rw [dot_eq_red2]; exact red2_flatten _ (dotK_append al) x y h
 
 theorem C04.triple_dot_flatten {α : Type} [CommRing α] (xy xz yz : Bool) (x y z : MVec α)
     (h : sameShape x y = true) (h' : sameShape x z = true) :
-    MVec.tripleDot xy xz yz x y z = tdotK xy xz yz x.flatten y.flatten z.flatten :=
-  red3_flatten _ (tdotK_append xy xz yz) x y z h h'
+    MVec.tripleDot xy xz yz x y z = tdotK xy xz yz x.flatten y.flatten z.flatten := by
+  rw [tripleDot_eq_red3]; exact red3_flatten _ (tdotK_append xy xz yz) x y z h h'
 
 /-- squared norm: with a square root that is exact on sums of squares (as over the reals) every nesting
 returns the sum of squares of the flattened data, although the leaves compute `sqr(norm2())` and the
@@ -548,3 +546,90 @@ theorem C04.flat_copy_axpy {α : Type} [CommRing α] (al : Bool) (a : α) (r x :
 /-- witness with a blocked component in the middle (offsets 0, 1, 5 — not 0, 1, 2) -/
 example : MVec.leafOffsets (MVec.tupleCons (MVec.dense [(1 : Rat)]) (MVec.tupleCons (MVec.blocked 4 [2, 3, 4, 5])
     (MVec.tupleOne (MVec.dense [6, 7])))) 0 = [0, 1, 5] := by decide
+
+/-! ## every alias branch of `component_invert` / `component_product` / `axpy` on COMPOSED vectors
+
+The member functions of the model recurse explicitly and hand every argument on by name (`Model/VecOps.lean`); the
+`*_flatten` theorems above are stated for EVERY value of every argument (`al`, `rx`, `ry`, `a`, `s`, …), so an argument
+dropped or replaced in a recursive call (e.g. `rest().component_invert(x.rest())` without `alpha`) would make them false.
+Corollaries: the aliased call on a nested vector equals the generic flat formula on the flattened data. -/
+
+theorem C04.component_invert_composed_alias {α : Type} [Field α] (s : α) (r : MVec α) (h : MVec.sameShape r r = true) :
+    (MVec.componentInvert true s r r).flatten = cinvK false s r.flatten r.flatten := by
+  rw [C04.component_invert_flatten true s r r h, C04.component_invert_alias]
+
+theorem C04.component_product_composed_alias_rx {α : Type} [CommRing α] (ry : Bool) (r y : MVec α)
+    (h : MVec.sameShape r r = true) (h' : MVec.sameShape r y = true) :
+    (MVec.componentProduct true ry r r y).flatten = cprodK false false r.flatten r.flatten y.flatten := by
+  rw [C04.component_product_flatten true ry r r y h h', C04.component_product_alias_rx]
+
+theorem C04.component_product_composed_alias_ry {α : Type} [CommRing α] (r x : MVec α)
+    (h : MVec.sameShape r x = true) (h' : MVec.sameShape r r = true) :
+    (MVec.componentProduct false true r x r).flatten = cprodK false false r.flatten x.flatten r.flatten := by
+  rw [C04.component_product_flatten false true r x r h h', C04.component_product_alias_ry]
+
+theorem C04.axpy_composed_alias {α : Type} [CommRing α] (a : α) (r : MVec α) (h : MVec.sameShape r r = true) :
+    (MVec.axpy true a r r).flatten = axpyK false a r.flatten r.flatten := by
+  rw [C04.axpy_flatten true a r r h, C04.axpy_alias]
+
+/-- a vector has its own shape (discharges the `sameShape r r` hypotheses) -/
+theorem C04.sameShape_refl {α : Type} (r : MVec α) : MVec.sameShape r r = true := by
+  induction r with
+  | dense d => simp [MVec.sameShape]
+  | blocked b d => simp [MVec.sameShape]
+  | tupleOne f ih => simpa [MVec.sameShape] using ih
+  | tupleCons f r ihf ihr => simp [MVec.sameShape, ihf, ihr]
+  | powerOne f ih => simpa [MVec.sameShape] using ih
+  | powerCons f r ihf ihr => simp [MVec.sameShape, ihf, ihr]
+
+
+/-! ## tier B: the generic dot loop in floating point (standard model `FlModel` / `FlNum` of C01)
+
+`dotK` — the function `drv_c04` runs at ℚ — instantiated at the scalar type `FlNum M` IS the floating-point loop
+`r = 0; for(i) r = fl(r + fl(x[i]·y[i]))` of `Arch::DotProduct::value_generic` (both branches). -/
+open FeatModel.LA in
+/-- `|fl(dot) − Σ xᵢyᵢ| ≤ γ_{n+1} Σ|xᵢ||yᵢ|`, `γ_m = m·u/(1 − m·u)`, for the generic and the aliased branch -/
+theorem C04.fl_dot_gamma (M : FlModel) (al : Bool) (x y : List (FlNum M)) (hl : x.length = y.length)
+    (hal : al = true → y = x) (hn : ((x.length + 1 : Nat) : Rat) * M.u < 1) :
+    |(dotK al x y).val - ∑ k ∈ Finset.Ico 0 x.length, (x.getD k 0).val * (y.getD k 0).val|
+      ≤ gammaFl M.u (x.length + 1) * ∑ k ∈ Finset.Ico 0 x.length, |(x.getD k 0).val| * |(y.getD k 0).val| := by
+  rw [dotK_eq_foldRange al x y hl hal]
+  have := fl_foldRange_error M (fun k => x.getD k 0) (fun k => y.getD k 0) 0 x.length (by simpa using hn)
+  simpa using this
+
+open FeatModel.LA in
+/-- the sum of squares accumulated by `Norm2::value_generic` (before the square root): `norm2sqr` in floating point -/
+theorem C04.fl_sumSq_gamma (M : FlModel) (x : List (FlNum M)) (hn : ((x.length + 1 : Nat) : Rat) * M.u < 1) :
+    |(sumSq x).val - ∑ k ∈ Finset.Ico 0 x.length, (x.getD k 0).val * (x.getD k 0).val|
+      ≤ gammaFl M.u (x.length + 1) * ∑ k ∈ Finset.Ico 0 x.length, |(x.getD k 0).val| * |(x.getD k 0).val| := by
+  have h := C04.fl_dot_gamma M true x x rfl (fun _ => rfl) hn
+  simpa [dotK, sumSq] using h
+
+open FeatModel.LA in
+/-- `triple_dot` (generic branch `r += x[i]*y[i]*z[i]`, i.e. `fl(r + fl(fl(x·y)·z))`): the same bound relative to the
+already rounded first products `p̂ᵢ = fl(xᵢyᵢ)`; `|p̂ᵢ − xᵢyᵢ| ≤ u|xᵢyᵢ|` is the model's `mul_spec` -/
+theorem C04.fl_triple_dot_gamma (M : FlModel) (x y z : List (FlNum M)) (hxy : x.length = y.length)
+    (hxz : x.length = z.length) (hn : ((x.length + 1 : Nat) : Rat) * M.u < 1) :
+    |(tdotK false false false x y z).val
+        - ∑ k ∈ Finset.Ico 0 x.length, ((List.zipWith (fun a b => a * b) x y).getD k 0).val * (z.getD k 0).val|
+      ≤ gammaFl M.u (x.length + 1)
+        * ∑ k ∈ Finset.Ico 0 x.length, |((List.zipWith (fun a b => a * b) x y).getD k 0).val| * |(z.getD k 0).val| := by
+  have hp : (List.zipWith (fun a b => a * b) x y).length = x.length := by simp [hxy]
+  have hzip : List.zipWith (fun xi (p : FlNum M × FlNum M) => xi * p.1 * p.2) x (List.zip y z)
+      = List.zipWith (fun a b => a * b) (List.zipWith (fun a b => a * b) x y) z := by
+    clear hn hp
+    induction x generalizing y z with
+    | nil => simp
+    | cons a t ih =>
+      cases y with
+      | nil => simp at hxy
+      | cons b u =>
+        cases z with
+        | nil => simp at hxz
+        | cons c v =>
+          simp only [List.zip_cons_cons, List.zipWith_cons_cons]
+          rw [ih u v (by simpa using hxy) (by simpa using hxz)]
+  have h := C04.fl_dot_gamma M false (List.zipWith (fun a b => a * b) x y) z (by rw [hp, hxz]) (by simp)
+    (by rw [hp]; exact hn)
+  rw [hp] at h
+  simpa [tdotK, dotK, hzip] using h
